@@ -3,6 +3,7 @@ package rules
 import (
 	"fmt"
 	"go/token"
+	"sort"
 	"strings"
 
 	"golang.org/x/tools/go/ssa"
@@ -28,55 +29,95 @@ func checkC17(c *an.Ctx) {
 		c.Und("C17.0", "config.(*Loader).load", token.NoPos, "load / loadDir / Load / LoadGlobalConfig not found")
 		return
 	}
-	isImports := func(v ssa.Value) bool { return an.FieldProv(v) == "Loader.imports" }
-
-	// C17.1
-	nRec := 0
-	for _, callee := range []*ssa.Function{ld, ldir} {
-		for _, site := range p.CallSitesOf(callee) {
-			if site.Parent() != ld && site.Parent() != ldir {
+	// C17.1 (decided on traces, see visited.go: the set, its tests and its marks are found by what they do —
+	// a seen/mark method of a set type or a resolver that returns a "skip" verdict are inlined)
+	pkgReach := func(from *ssa.Function) map[*ssa.Function][]an.CallEdge {
+		return p.Reach([]*ssa.Function{from}, func(e an.CallEdge) bool { return e.Kind == an.EdgeCall && an.Outer(e.Callee).Pkg == ld.Pkg })
+	}
+	cycle := map[*ssa.Function]bool{}
+	for g := range pkgReach(ld) {
+		if _, back := pkgReach(g)[ld]; back {
+			cycle[g] = true
+		}
+	}
+	cycle[ld], cycle[ldir] = true, true
+	vt := &visitedTracer{p: p, onCycle: cycle, sites: map[ssa.Instruction]bool{}, reads: map[ssa.Instruction]bool{}, seedURL: -1}
+	vt.setHelpers(ld.Pkg)
+	readsInput := func(g *ssa.Function) bool {
+		if cycle[g] {
+			return false
+		}
+		found := false
+		for h := range pkgReach(g) {
+			if cycle[h] || h.Blocks == nil {
 				continue
 			}
-			nRec++
-			k := site.Common().Args[1]
-			guarded := false
-			for _, g := range an.Guards(site.Block()) {
-				lk, ok := g.Cond.(*ssa.Lookup)
-				if !ok || !isImports(lk.X) {
-					continue
+			an.EachInstr(h, func(in ssa.Instruction) {
+				if ci, ok := in.(ssa.CallInstruction); ok {
+					switch an.ShortCallee(ci.Common()) {
+					case "os.Open", "os.ReadFile", "io/ioutil.ReadFile", "io/ioutil.ReadAll", "io.ReadAll", "net/http.Get", "(*net/http.Client).Get", "(*net/http.Client).Do":
+						found = true
+					}
 				}
-				if !g.Outcome && (an.SameValue(lk.Index, k) || an.Prov(lk.Index) == an.Prov(k)) {
-					guarded = true
+			})
+		}
+		return found
+	}
+	var recSites []ssa.CallInstruction
+	for g := range cycle {
+		if g.Blocks == nil {
+			continue
+		}
+		an.EachInstr(g, func(in ssa.Instruction) {
+			ci, ok := in.(ssa.CallInstruction)
+			if !ok {
+				return
+			}
+			for _, callee := range p.Callees(ci.Common()) {
+				if cycle[callee] {
+					vt.sites[in] = true
+					if callee == ld || callee == ldir {
+						recSites = append(recSites, ci)
+					}
+				} else if g == ld && readsInput(callee) {
+					vt.reads[in] = true
 				}
 			}
-			key := fmt.Sprintf("%s:call(%s)", an.Short(site.Parent()), an.Short(callee))
-			c.Check(guarded, "C17.1", key, site.Pos(), "recursive load guarded by !imports[key] on the key passed on", "a recursive load of "+an.Prov(k)+" is not guarded by the visited set on that key: an import cycle through this site never terminates (or a file is loaded twice)")
+		})
+	}
+	sort.Slice(recSites, func(i, j int) bool { return recSites[i].Pos() < recSites[j].Pos() })
+	nRec := 0
+	setField := ""
+	for _, site := range recSites {
+		nRec++
+		callee := p.Callees(site.Common())[0]
+		k := site.Common().Args[1]
+		ai, sp, guarded, why := vt.guardedOn(site.Parent(), site.(ssa.Instruction))
+		if guarded && ai != 1 {
+			guarded, why = false, "the membership test is not on the name passed on"
 		}
+		if guarded && strings.HasPrefix(sp, "Loader.") {
+			if setField != "" && setField != sp {
+				guarded, why = false, "the recursive loads consult different sets ("+setField+", "+sp+")"
+			}
+			setField = sp
+		} else if guarded {
+			guarded, why = false, "the set consulted ("+sp+") is not held by the loader"
+		}
+		key := fmt.Sprintf("%s:call(%s)", an.Short(site.Parent()), an.Short(callee))
+		c.Check(guarded, "C17.1", key, site.Pos(), "recursive load guarded by !imports[key] on the key passed on", "a recursive load of "+an.Prov(k)+" is not guarded by the visited set on that key ("+why+"): an import cycle through this site never terminates (or a file is loaded twice)")
 	}
 	if nRec == 0 {
 		c.Und("C17.1", an.Short(ld)+":recursion", ld.Pos(), "load/loadDir never load an import")
 	}
 	// mark before read
-	var mark *ssa.MapUpdate
-	an.EachInstr(ld, func(in ssa.Instruction) {
-		if mu, ok := in.(*ssa.MapUpdate); ok && isImports(mu.Map) && an.SameValue(mu.Key, ld.Params[1]) {
-			if k, ok := mu.Value.(*ssa.Const); ok && k.Value != nil && k.Value.ExactString() == "true" {
-				mark = mu
-			}
-		}
-	})
-	if mark == nil {
-		c.Bad("C17.1", an.Short(ld)+":mark", ld.Pos(), "load does not mark the file it is about to read as visited: a file importing itself (directly or through others) is loaded again and again")
+	if okMark, why := vt.marksBefore(ld, ld.Params[1], setField); okMark {
+		c.OK("C17.1", an.Short(ld)+":mark", ld.Pos(), "the file is marked visited before it is read and before any import is followed")
 	} else {
-		good := true
-		for _, name := range []string{"(*internal/config.Loader).readFile", "(*internal/config.Loader).readURL", "(*internal/config.Loader).load", "(*internal/config.Loader).loadDir"} {
-			for _, ci := range an.CallsIn(ld, name) {
-				if !an.Dominates(mark, ci) {
-					good = false
-				}
-			}
-		}
-		c.Check(good, "C17.1", an.Short(ld)+":mark", mark.Pos(), "the file is marked visited before it is read and before any import is followed", "the visited mark does not precede reading the file / following its imports")
+		c.Bad("C17.1", an.Short(ld)+":mark", ld.Pos(), "load does not mark the file it is about to read as visited before reading it / following its imports (%s): a file importing itself (directly or through others) is loaded again and again", why)
+	}
+	if setField == "" {
+		setField = "Loader.imports"
 	}
 	// every entry into load is marked: callers other than load/loadDir pass through the mark too (it is in load itself)
 	// imports replaced only by reset
@@ -88,7 +129,7 @@ func checkC17(c *an.Ctx) {
 				return
 			}
 			fa, ok := st.Addr.(*ssa.FieldAddr)
-			if !ok || an.TypeField(fa) != "Loader.imports" {
+			if !ok || an.TypeField(fa) != setField {
 				return
 			}
 			fresh, _ := an.FreshBase(fa.X)
@@ -104,7 +145,7 @@ func checkC17(c *an.Ctx) {
 					}
 				}
 			}
-			c.Check(fn == reset || fresh || atStart, "C17.1", an.Short(fn)+":write(Loader.imports)", st.Pos(), "the visited set is replaced only at the start of Load / by the constructor", "the visited set is replaced in "+an.Short(fn)+": marks are lost in the middle of a load")
+			c.Check(fn == reset || fresh || atStart, "C17.1", an.Short(fn)+":write("+setField+")", st.Pos(), "the visited set is replaced only at the start of Load / by the constructor", "the visited set is replaced in "+an.Short(fn)+": marks are lost in the middle of a load")
 		})
 	}
 	if reset != nil {
@@ -192,49 +233,101 @@ func checkC17(c *an.Ctx) {
 		}
 		return true, ""
 	}
-	nPathSites := 0
-	for _, target := range []*ssa.Function{ld, ldir} {
-		for _, site := range p.CallSitesOf(target) {
-			g := site.Parent()
-			if _, in := importScope[g]; !in {
-				continue
-			}
-			nPathSites++
-			k := site.Common().Args[1]
-			// URL imports pass the entry itself; file imports pass Join(Dir(file), entry)
-			isURLBranch := false
-			for _, gd := range an.Guards(site.Block()) {
-				if call, ok := gd.Cond.(*ssa.Call); ok && an.ShortCallee(&call.Call) == "pkg/utils.IsURL" && gd.Outcome {
-					isURLBranch = true
-				}
-			}
-			kind := map[bool]string{true: "file", false: "dir"}[target == ld]
-			key := an.Short(g) + ":import-path"
-			if isURLBranch && target == ld {
-				c.OK("C17.3", key+"(url)", site.Pos(), "URL imports are loaded as given")
-				continue
-			}
-			good, why := true, ""
-			for _, src := range p.DeepSourcesStop(k, 3, true, stopAtFile) {
-				call, ok := src.(*ssa.Call)
-				if !ok || (an.ShortCallee(&call.Call) != "path.Join" && an.ShortCallee(&call.Call) != "path/filepath.Join") {
-					good, why = false, an.FieldProv(src)
-					continue
-				}
-				elems := an.VariadicElems(call.Call.Args[0])
-				if len(elems) < 2 {
-					good, why = false, an.FieldProv(src)
-					continue
-				}
-				if ok2, w := isDirOfImporter(elems[0]); !ok2 {
-					good, why = false, "joined with "+w+" — not the directory of the file being loaded by this activation (a value kept in the loader is overwritten by nested loads)"
-				}
-			}
-			c.Check(good, "C17.3", key+"("+kind+")", site.Pos(), kind+" imports resolve against the importing file's directory", "an imported "+kind+" is not loaded from Join(Dir(<importing file>), <entry>): "+why)
+	// decided on the traces of the functions that follow imports (helpers that resolve an entry are
+	// inlined, the name passed on is mapped back to what it denotes): where the entry is a URL it is
+	// loaded as given; otherwise what is loaded is Join(Dir(<importing file>), <entry>)
+	type verdict struct {
+		n    int
+		bad  string
+		site ssa.Instruction
+	}
+	verdicts := map[string]*verdict{}
+	var vkeys []string
+	nURL, nFile, nDir := 0, 0, 0
+	var importers []*ssa.Function
+	for g := range cycle {
+		if g != ldir && g.Blocks != nil {
+			importers = append(importers, g)
 		}
 	}
-	if nPathSites < 3 {
-		c.Und("C17.3", an.Short(ld)+":import-path", ld.Pos(), "only %d recursive load sites found under load (URL, file and directory imports expected)", nPathSites)
+	sort.Slice(importers, func(i, j int) bool { return importers[i].String() < importers[j].String() })
+	for _, g := range importers {
+		if _, in := importScope[g]; !in && g != ld {
+			continue
+		}
+		for _, world := range []int{1, 0} {
+			vt.seedURL = world
+			paths, exhausted := vt.trace(g, false)
+			if exhausted {
+				c.Und("C17.3", an.Short(g)+":import-path", g.Pos(), "the path exploration ran out of budget")
+				continue
+			}
+			for _, path := range paths {
+				for i, ev := range path {
+					if ev.kind != "call" || ev.site.Parent() != g {
+						continue
+					}
+					callees := p.Callees(ev.site.(ssa.CallInstruction).Common())
+					if len(callees) != 1 || (callees[0] != ld && callees[0] != ldir) || len(ev.args) < 2 {
+						continue
+					}
+					arg := ev.args[1]
+					asGiven := false
+					for j := 0; j < i; j++ {
+						if path[j].kind == "url" && sameKey(path[j].key, arg) {
+							asGiven = true
+						}
+					}
+					kind := map[bool]string{true: "file", false: "dir"}[callees[0] == ld]
+					if world == 1 && asGiven && callees[0] == ld {
+						kind = "url"
+					}
+					key := an.Short(g) + ":import-path(" + kind + ")"
+					v := verdicts[key]
+					if v == nil {
+						v = &verdict{site: ev.site}
+						verdicts[key] = v
+						vkeys = append(vkeys, key)
+					}
+					v.n++
+					if kind == "url" {
+						nURL++
+						continue
+					}
+					if callees[0] == ld {
+						nFile++
+					} else {
+						nDir++
+					}
+					elems := ev.joins[1]
+					if len(elems) < 2 {
+						v.bad = an.FieldProv(arg)
+						continue
+					}
+					if ok2, w := isDirOfImporter(elems[0]); !ok2 {
+						v.bad = "joined with " + w + " — not the directory of the file being loaded by this activation (a value kept in the loader is overwritten by nested loads)"
+					}
+				}
+			}
+		}
+		vt.seedURL = -1
+	}
+	sort.Strings(vkeys)
+	for _, key := range vkeys {
+		v := verdicts[key]
+		switch {
+		case strings.HasSuffix(key, "(url)"):
+			c.OK("C17.3", key, v.site.Pos(), "URL imports are loaded as given")
+		default:
+			kind := "file"
+			if strings.HasSuffix(key, "(dir)") {
+				kind = "dir"
+			}
+			c.Check(v.bad == "", "C17.3", key, v.site.Pos(), kind+" imports resolve against the importing file's directory", "an imported "+kind+" is not loaded from Join(Dir(<importing file>), <entry>): "+v.bad)
+		}
+	}
+	if nURL == 0 || nFile == 0 || nDir == 0 {
+		c.Und("C17.3", an.Short(ld)+":import-path", ld.Pos(), "the traces under load do not show all three kinds of import being followed (URL %d, file %d, directory %d)", nURL, nFile, nDir)
 	}
 	for _, site := range p.CallSitesOf(ld) {
 		if site.Parent() != ldir {
